@@ -39,9 +39,12 @@ inductive Err where
 /-- atomic numbers of the (explicit-hydrogen) graph: what `get_Selements` reads off `AddHs(MolFromSmiles(name))` -/
 def atomsOf (m : Mol) : List Nat := m.atoms.map (·.Z)
 
+/-- `self.name = mol` -/
+def remember (lib : Lib) (m : Mol) : Lib := { lib with name := some (atomsOf m) }
+
 /-- `GroupLibrary.GetDescriptors(mol)`: the library remembers the molecule, the scheme decomposes it -/
 def getDescriptors (S : SchemeDef) (lib : Lib) (m : Mol) : Lib × Except Scheme.Err Counts :=
-  ({ lib with name := some (atomsOf m) }, decompose S m)
+  (remember lib m, decompose S m)
 
 /-- `lib.Estimate(lib.GetDescriptors(m), set)` -/
 def pipeline (reg : List String) (S : SchemeDef) (lib : Lib) (m : Mol) (set : String) : Except Err Estimator :=
